@@ -9,7 +9,7 @@
 //! validation codes are equal.
 //!
 //! Mutants caught (tools/mutant_run.sh H <diff> C40 quick):
-//!   /verif/mutants/C40-async-skips-verify-after-sign.diff
+//!   /verif/mutants/C40-async-skips-verify-after-sign.diff -> `outcome-differs ...` / `error-kind-differs ...` on the faulty-signer cases (sub-product G)
 
 use crate::{c03, c15, c22::first_diff, c39};
 use c2pa::{assertions::DataHash, Builder, BuilderIntent, DigitalSourceType, HashRange, Reader};
@@ -316,8 +316,7 @@ fn judge(run: &Run, case: &AnyCase, seeds: &[c39::Seed], only_pend: Option<Optio
     let report = |fl: Flavor, a: &Obs| {
         if let Some((k, w)) = compare(&s, a) {
             let dev = match fl { Flavor::Async(Some(_)) => "pending-once", _ => "undisturbed" };
-            STATS.get_or_init(Default::default).add(&format!("{k} {} async={dev}", case.group()), &format!("{} [{fl:?}]: {w}", case.id()));
-            run.violation(format!("{k} {} async={dev}", case.group()), format!("{} [{fl:?}]: {w}", case.id()), case.to_json(fl));
+            STATS.get_or_init(Default::default).violation(run, 25, format!("{k} {} async={dev}", case.group()), format!("{} [{fl:?}]: {w}", case.id()), case.to_json(fl));
             run.outcome("disagree");
         }
     };
@@ -439,9 +438,9 @@ pub fn run(run: &Run, replay: Option<&Value>) {
             par::for_each(&sub, |c| judge(run, c, &seeds, None));
             eprintln!("C40: {e}: {} cases in {:.1}s", sub.len(), run.elapsed() - t0);
         }
-        STATS.get_or_init(Default::default).dump("C40");
+        STATS.get_or_init(Default::default).finish(run, "C40");
         return;
     }
     par::for_each(&cases, |c| judge(run, c, &seeds, None));
-    STATS.get_or_init(Default::default).dump("C40");
+    STATS.get_or_init(Default::default).finish(run, "C40");
 }
